@@ -134,6 +134,9 @@ func (f *TF) And(a, b *Term) *Term {
 	if a == b {
 		return a
 	}
+	if r := f.wideEq(a, b); r != nil {
+		return r
+	}
 	return f.mk("and", SBool, 0, a, b)
 }
 
@@ -153,7 +156,82 @@ func (f *TF) Or(a, b *Term) *Term {
 	if a == b {
 		return a
 	}
+	if r := f.wideLt(a, b); r != nil {
+		return r
+	}
+	if r := f.wideLt(b, a); r != nil {
+		return r
+	}
 	return f.mk("or", SBool, 0, a, b)
+}
+
+// assume rewrites t under the assumption that condition c has truth value v (nested ites and occurrences of c).
+func (f *TF) assume(t, c *Term, v bool, depth int) *Term {
+	if t == c {
+		return f.Bool(v)
+	}
+	if depth <= 0 || len(t.Args) == 0 {
+		return t
+	}
+	switch t.Op {
+	case "ite":
+		cc := f.assume(t.Args[0], c, v, depth-1)
+		if cc.IsConst() {
+			if cc.BV_ {
+				return f.assume(t.Args[1], c, v, depth-1)
+			}
+			return f.assume(t.Args[2], c, v, depth-1)
+		}
+		a, b := f.assume(t.Args[1], c, v, depth-1), f.assume(t.Args[2], c, v, depth-1)
+		if cc == t.Args[0] && a == t.Args[1] && b == t.Args[2] {
+			return t
+		}
+		return f.Ite(cc, a, b)
+	case "not":
+		a := f.assume(t.Args[0], c, v, depth-1)
+		if a == t.Args[0] {
+			return t
+		}
+		return f.Not(a)
+	case "and", "or":
+		a, b := f.assume(t.Args[0], c, v, depth-1), f.assume(t.Args[1], c, v, depth-1)
+		if a == t.Args[0] && b == t.Args[1] {
+			return t
+		}
+		if t.Op == "and" {
+			return f.And(a, b)
+		}
+		return f.Or(a, b)
+	case "+", "-", "*", "neg", "=", "<", "<=":
+		changed := false
+		args := make([]*Term, len(t.Args))
+		for i, x := range t.Args {
+			args[i] = f.assume(x, c, v, depth-1)
+			if args[i] != x {
+				changed = true
+			}
+		}
+		if !changed {
+			return t
+		}
+		switch t.Op {
+		case "+":
+			return f.Add(args[0], args[1])
+		case "-":
+			return f.Sub(args[0], args[1])
+		case "*":
+			return f.Mul(args[0], args[1])
+		case "neg":
+			return f.Neg(args[0])
+		case "=":
+			return f.Eq(args[0], args[1])
+		case "<", "<=":
+			if args[0].Sort == SInt {
+				return f.Cmp(t.Op, args[0], args[1])
+			}
+		}
+	}
+	return t
 }
 
 func (f *TF) Ite(c, a, b *Term) *Term {
@@ -166,12 +244,32 @@ func (f *TF) Ite(c, a, b *Term) *Term {
 	if a == b {
 		return a
 	}
+	if c.Op == "not" {
+		return f.Ite(c.Args[0], b, a)
+	}
+	a = f.assume(a, c, true, 6)
+	b = f.assume(b, c, false, 6)
+	if a == b {
+		return a
+	}
 	if a.Sort == SBool {
 		if a.IsConst() && b.IsConst() {
 			if a.BV_ {
 				return c
 			}
 			return f.Not(c)
+		}
+		if b.IsConst() {
+			if b.BV_ {
+				return f.Or(f.Not(c), a)
+			}
+			return f.And(c, a)
+		}
+		if a.IsConst() {
+			if a.BV_ {
+				return f.Or(c, b)
+			}
+			return f.And(f.Not(c), b)
 		}
 	}
 	t := &Term{Op: "ite", Sort: a.Sort, W: a.W, Args: []*Term{c, a, b}}
@@ -236,9 +334,42 @@ func (f *TF) Eq(a, b *Term) *Term {
 
 // ---------- Int ----------
 
+// splitConst views t as base + k (k constant); base may be nil when t is constant.
+func splitConst(t *Term) (*Term, *big.Int) {
+	switch t.Op {
+	case "const":
+		return nil, t.IV
+	case "+":
+		if t.Args[1].IsConst() {
+			return t.Args[0], t.Args[1].IV
+		}
+		if t.Args[0].IsConst() {
+			return t.Args[1], t.Args[0].IV
+		}
+	case "-":
+		if t.Args[1].IsConst() {
+			return t.Args[0], new(big.Int).Neg(t.Args[1].IV)
+		}
+	}
+	return t, bigZero
+}
+
 func (f *TF) Add(a, b *Term) *Term {
 	if a.IsConst() && b.IsConst() {
 		return f.Int(new(big.Int).Add(a.IV, b.IV))
+	}
+	if ba, ka := splitConst(a); ka.Sign() != 0 && ba != nil {
+		if bb, kb := splitConst(b); bb != nil {
+			k := new(big.Int).Add(ka, kb)
+			return f.addK(f.Add(ba, bb), k)
+		} else {
+			return f.addK(ba, new(big.Int).Add(ka, kb))
+		}
+	} else if bb, kb := splitConst(b); kb.Sign() != 0 && bb != nil && !b.IsConst() {
+		if a.IsConst() {
+			return f.addK(bb, new(big.Int).Add(kb, a.IV))
+		}
+		return f.addK(f.Add(a, bb), kb)
 	}
 	if a.IsConst() && a.IV.Sign() == 0 {
 		return b
@@ -256,12 +387,40 @@ func (f *TF) Add(a, b *Term) *Term {
 	return f.intern(t)
 }
 
+// addK builds t + k with k constant, in canonical form (+ t k).
+func (f *TF) addK(t *Term, k *big.Int) *Term {
+	if k.Sign() == 0 {
+		return t
+	}
+	if t.IsConst() {
+		return f.Int(new(big.Int).Add(t.IV, k))
+	}
+	kt := f.Int(k)
+	r := &Term{Op: "+", Sort: SInt, Args: []*Term{t, kt}}
+	if t.lo != nil {
+		r.lo = new(big.Int).Add(t.lo, k)
+	}
+	if t.hi != nil {
+		r.hi = new(big.Int).Add(t.hi, k)
+	}
+	return f.intern(r)
+}
+
 func (f *TF) Neg(a *Term) *Term {
 	if a.IsConst() {
 		return f.Int(new(big.Int).Neg(a.IV))
 	}
 	if a.Op == "neg" {
 		return a.Args[0]
+	}
+	if a.Op == "-" {
+		return f.Sub(a.Args[1], a.Args[0])
+	}
+	if ba, ka := splitConst(a); ka.Sign() != 0 && ba != nil {
+		return f.addK(f.Neg(ba), new(big.Int).Neg(ka))
+	}
+	if a.Op == "ite" && (a.Args[1].Op == "neg" || a.Args[2].Op == "neg" || a.Args[1].IsConst() || a.Args[2].IsConst()) {
+		return f.Ite(a.Args[0], f.Neg(a.Args[1]), f.Neg(a.Args[2]))
 	}
 	t := &Term{Op: "neg", Sort: SInt, Args: []*Term{a}}
 	if a.hi != nil {
@@ -280,8 +439,25 @@ func (f *TF) Sub(a, b *Term) *Term {
 	if a.IsConst() && b.IsConst() {
 		return f.Int(new(big.Int).Sub(a.IV, b.IV))
 	}
-	if b.IsConst() && b.IV.Sign() == 0 {
-		return a
+	if b.IsConst() {
+		return f.addK(a, new(big.Int).Neg(b.IV))
+	}
+	if a.IsConst() && a.IV.Sign() == 0 {
+		return f.Neg(b)
+	}
+	if b.Op == "neg" {
+		return f.Add(a, b.Args[0])
+	}
+	{
+		ba, ka := splitConst(a)
+		bb, kb := splitConst(b)
+		if (ka.Sign() != 0 || kb.Sign() != 0) && bb != nil {
+			k := new(big.Int).Sub(ka, kb)
+			if ba == nil {
+				return f.addK(f.Neg(bb), k)
+			}
+			return f.addK(f.Sub(ba, bb), k)
+		}
 	}
 	t := &Term{Op: "-", Sort: SInt, Args: []*Term{a, b}}
 	if a.lo != nil && b.hi != nil {
@@ -968,4 +1144,75 @@ func sortedKeys[V any](m map[string]V) []string {
 	}
 	sort.Strings(ks)
 	return ks
+}
+
+// ---------- 128-bit idioms: (div P 2^64, mod P 2^64) pairs as produced by bits.Mul64 ----------
+
+var two64 = pow2(64)
+
+func hiOf(t *Term) (*Term, bool) {
+	if t.Op == "div" && t.Args[1].IsConst() && t.Args[1].IV.Cmp(two64) == 0 {
+		return t.Args[0], true
+	}
+	return nil, false
+}
+func loOf(t *Term) (*Term, bool) {
+	if t.Op == "mod" && t.Args[1].IsConst() && t.Args[1].IV.Cmp(two64) == 0 {
+		return t.Args[0], true
+	}
+	return nil, false
+}
+func isZero(t *Term) bool { return t.IsConst() && t.Sort == SInt && t.IV.Sign() == 0 }
+
+// pairOf matches a relation op(x, y) whose sides are both high words (or both low words) of wide products
+// (a literal 0 counts as the word of the product 0) and returns the products.
+func (f *TF) pairOf(t *Term, op string, word func(*Term) (*Term, bool)) (p, q *Term, ok bool) {
+	if t.Op != op || len(t.Args) != 2 {
+		return nil, nil, false
+	}
+	x, y := t.Args[0], t.Args[1]
+	px, okx := word(x)
+	py, oky := word(y)
+	switch {
+	case okx && oky:
+		return px, py, true
+	case okx && isZero(y):
+		return px, f.Int64(0), true
+	case oky && isZero(x):
+		return f.Int64(0), py, true
+	}
+	return nil, nil, false
+}
+
+// wideEq: (hi(P) = hi(Q)) and (lo(P) = lo(Q))  ==>  P = Q   (Euclidean div/mod by 2^64 is a bijection)
+func (f *TF) wideEq(a, b *Term) *Term {
+	for _, ab := range [2][2]*Term{{a, b}, {b, a}} {
+		p1, q1, ok1 := f.pairOf(ab[0], "=", hiOf)
+		p2, q2, ok2 := f.pairOf(ab[1], "=", loOf)
+		if ok1 && ok2 {
+			if p1 == p2 && q1 == q2 {
+				return f.Eq(p1, q1)
+			}
+			if p1 == q2 && q1 == p2 {
+				return f.Eq(p1, q1)
+			}
+		}
+	}
+	return nil
+}
+
+// wideLt: (hi(P) < hi(Q)) or ((hi(P) = hi(Q)) and (lo(P) < lo(Q)))  ==>  P < Q
+func (f *TF) wideLt(a, b *Term) *Term {
+	p1, q1, ok1 := f.pairOf(a, "<", hiOf)
+	if !ok1 || b.Op != "and" {
+		return nil
+	}
+	for _, xy := range [2][2]*Term{{b.Args[0], b.Args[1]}, {b.Args[1], b.Args[0]}} {
+		p2, q2, ok2 := f.pairOf(xy[0], "=", hiOf)
+		p3, q3, ok3 := f.pairOf(xy[1], "<", loOf)
+		if ok2 && ok3 && p3 == p1 && q3 == q1 && ((p2 == p1 && q2 == q1) || (p2 == q1 && q2 == p1)) {
+			return f.Cmp("<", p1, q1)
+		}
+	}
+	return nil
 }
